@@ -40,6 +40,11 @@ func expandAndEvaluate(expr []token, all map[string][]token, resolved map[string
 	// only the symbols the expression can reach matter; resolving all of
 	// them for every FOR count would make the cost of a count grow with
 	// the number of unrelated definitions
+	if failed == nil {
+		// remembered for the length of this call at least: an expression may
+		// name the same unresolvable symbol many times
+		failed = make(map[string]error)
+	}
 	symbols := make(map[string][]token)
 	var knownFailure error
 	// collect gathers the symbols toks lead to that have no value yet. It
@@ -134,6 +139,9 @@ func expandValue(key string, values, resolved map[string][]token, graph map[stri
 // take in all
 func expandValueRemembering(key string, values, resolved map[string][]token, graph map[string][]string, failed map[string]error, budget *int) (output []token, err error) {
 	if failed != nil {
+		if known, bad := failed[key]; bad {
+			return nil, known
+		}
 		defer func() {
 			if err != nil {
 				failed[key] = err
@@ -223,6 +231,7 @@ func expandExpressions(values map[string][]token, graph map[string][]string) (ma
 // symbols that name one long value take its length times their number: budget
 // is the number of tokens the values resolved here may still take in all.
 func expandExpressionsInto(values map[string][]token, graph map[string][]string, resolved map[string][]token, failed map[string]error, budget *int) error {
+	var firstErr error
 	// in sorted order, so that the same input always reports the same error
 	for _, key := range sortedKeys(values) {
 		_, ok := resolved[key]
@@ -231,11 +240,19 @@ func expandExpressionsInto(values map[string][]token, graph map[string][]string,
 		}
 		expanded, err := expandValueRemembering(key, values, resolved, graph, failed, budget)
 		if err != nil {
-			return err
+			if failed == nil {
+				return err
+			}
+			// the failure is remembered; resolve the other values all the
+			// same, so that they are not gathered again by a later call
+			if firstErr == nil {
+				firstErr = err
+			}
+			continue
 		}
 		resolved[key] = expanded
 	}
-	return nil
+	return firstErr
 }
 
 func combineSigns(expr []token) []token {
